@@ -110,7 +110,7 @@ PLAN = {
         "wtf": True,
         "quick": [
             {"run": "TestC09_Notebook", "checks": 12, "cores": 8},
-            {"run": "TestC09_History", "checks": 6, "cores": 8},
+            {"run": "TestC09_History", "checks": 12, "cores": 8},
             {"run": "TestC09_CrashPoints", "checks": 30, "cores": 8},
         ],
         "thorough": [
@@ -230,12 +230,14 @@ PLAN = {
             {"run": "TestC18_Monitor", "checks": 5000},
             {"run": "TestC18_Concurrent", "checks": 150, "race": True},
             {"run": "TestC18_Wrapper", "checks": 400},
+            {"run": "TestC18_Accessors", "checks": 3000},
         ],
         "thorough": [
             {"run": "TestC18_Identity", "checks": 2400000, "shards": 10, "timeout": 7200},
             {"run": "TestC18_Monitor", "checks": 600000, "shards": 4, "timeout": 7200},
             {"run": "TestC18_Concurrent", "checks": 6000, "race": True, "shards": 2, "timeout": 7200},
             {"run": "TestC18_Wrapper", "checks": 60000, "shards": 4, "timeout": 7200},
+            {"run": "TestC18_Accessors", "checks": 400000, "shards": 8, "timeout": 7200},
         ],
     },
     "C19": {
